@@ -301,17 +301,19 @@ PROPS["C05"] = {
 }
 
 PROPS["C01"] = {
-    "modules": ["OxiaVerif.Props.C01"],
+    "modules": ["OxiaVerif.Props.C01", "OxiaVerif.Props.ReplSafety"],
     "facts": ["becomeLeaderOnlyFromFencedSameTerm", "trackerCommitsAtRequiredAcks", "walSyncCallbacksOnlyForFlushedEntries", "walReaderServesOnlySyncedEntries",
               "newTermQuorumMajorityOverEnsembleAndRemoved", "selectNewLeaderTakesMaxTermThenOffset", "truncateComparesWithFollowerTermEntry", "cursorStartsAtTruncatedHead",
               "coordinatorPersistsTermBeforeNewTerm", "updateTermFlushes", "newTermWaitsForInFlightAppends"],
     "trusted_base": REPLTRUST,
-    "assumptions": ["the election step is proved for a winner whose head entry is of the acknowledged entry's term; the induction over later terms (leader completeness) is NOT proved: C01 is decided by the partial theorem, the facts and the differential runs",
+    "assumptions": ["fixed ensemble: membership changes are outside A-Repl (known finding D-41 is about them)",
+                    "the attach step is not enabled in the case of known finding D-44 (the leader's last entry at or below the follower's head term is of a lower term): histories through that case are outside the theorem, and the implementation diverges there at the log level (C03)",
+                    "A-Repl's steps are atomic and logs are durable when appended (WAL: C09/C10; acknowledgement after sync: facts); the steps' decisions are M-Repl's functions (plan, highestOfTerm, better), which are tied to the code by facts and differential runs; that every behaviour of the implementation is a sequence of A-Repl steps is argued in DESIGN.md section 10.8, not proved",
                     "disks are kept (C09/C10 for the WAL, C07 for the database); at most a minority is cut off at a time in generated scripts"],
     "rule": PRULE + " Added: elections over an ensemble with a node being removed (swap) while the leader is away. Oracle: every write acknowledged to the client is in the committed log of, and visible on, the leader of the newest term in every later settled state.",
-    "level_text": "Machine-checked proof (Lean 4), partial: a write is acknowledged only at or below the leader's quorum commit offset (C01_ack_only_after_commit); the election step of leader completeness - a candidate holds the acknowledged entry of term T, the winner's head is not lower (C05) and is an entry of term T, all logs are cut from the per-term logs - implies that the winner holds the entry at the same offset (C01_election_keeps_entry_same_term_partial). Missing for the full statement: the induction over intermediate terms. Proved model history for the node-swap election that loses acknowledged writes (known finding D-41), reproduced on real node controllers. Tied to the code by eleven facts and by differential runs with partitions, restarts and elections.",
-    "level_note": "PARTIAL proof. Trusted: Lean kernel; extractor rules; protocol harness. Known finding D-41 (node swap election can install a leader without acknowledged writes).",
-    "technique": "Lean 4 proof (partial: election step of leader completeness) + regenerated facts + differential correspondence on real controllers",
+    "level_text": "Machine-checked proof (Lean 4): LEADER COMPLETENESS for acknowledged writes on A-Repl, the protocol as a transition system of atomic steps (newElection, fence, becomeLeader with a fenced majority and the best head, attach with the truncation decision of the code, append, write, restart) for any number of nodes with a fixed ensemble: in every reachable state, an entry that the leader of term t wrote in its own term and that a majority has acknowledged in term t (acknowledgements are history: they may arrive after the follower moved on) is at its offset in the log of every leader of every later term (leader_completeness), and stays there in every state reachable afterwards (acknowledged_write_survives); also log matching, one leader per term, attached followers hold a prefix of their leader's log. Proof by a 16-part inductive invariant over the history state (inv_step, about 1,000 lines), with the election step from C05's selection rule and C03's attach theorem; non-vacuity by kernel-evaluated runs (demo_run_meets_hypotheses) and the boundary by d44_attach_not_enabled. On M-Repl: a write is acknowledged only at or below the leader's quorum commit offset (C01_ack_only_after_commit). PARTIAL with respect to the property's quantifier: membership changes (node swap) are outside A-Repl - proved model history that loses acknowledged writes there (known finding D-41), reproduced on real node controllers - and so are histories through the D-44 attach case. Tied to the code by eleven facts and by differential runs with partitions, restarts and elections.",
+    "level_note": "Proof for a fixed ensemble outside the D-44 case; PARTIAL for reconfiguration. Trusted: Lean kernel; extractor rules; protocol harness; the correspondence between A-Repl's steps and the implementation's RPC handling (same decision functions as M-Repl, not proved). Known finding D-41 (node swap election can install a leader without acknowledged writes).",
+    "technique": "Lean 4 proof (inductive invariant over an abstract protocol model: leader completeness) + regenerated facts + differential correspondence on real controllers",
     "design_ref": "DESIGN.md section 6 C01",
 }
 
